@@ -563,15 +563,17 @@ impl World {
         // the event's own datagrams were processed before collect() saw its sentinels;
         // one more round delivers the ICMP errors they caused
         env.barrier();
-        for s in env.begin_sockets.drain(..) {
-            let _ = s.get_ref().take_error();
-        }
+        // first the sockets the links use now: their pending error becomes part of the state ...
         self.pending_err.clear();
         for c in self.connections.iter() {
             if let Some(io) = self.conn_io.get(&c.conn_id) {
                 let e = io.socket.get_ref().take_error().ok().flatten().is_some();
                 self.pending_err.push((c.conn_id, e));
             }
+        }
+        // ... then whatever is left on sockets the event replaced (siblings still share them)
+        for s in env.begin_sockets.drain(..) {
+            let _ = s.get_ref().take_error();
         }
     }
 
